@@ -207,6 +207,12 @@ def vacuity(cases, bases, tier):
         need.append("no unedited base case")
     if tier == "thorough" and not [c for c in cases if c["case"]["kind"] == "pair"]:
         need.append("no two-edit case")
+    # every stage of the transcribed pipeline reports somewhere, and the loop over -g entries is taken
+    fam = {c["b"]["mech"].split(".")[0] for c in cases if c.get("b")}
+    if not {"args", "parse", "circle", "check", "resolve", "targets", "backend", "ok"} <= fam:
+        need.append("stages of layer B that never fire: have %s" % sorted(fam))
+    if "lateGen" not in IMPL_FIXES and not [c for c in cases if c.get("b") and len(c["cmd"]["langs"]) > 1 and c["b"]["files"]]:
+        need.append("no case in which layer B persists one -g entry and goes on to the next")
     if need:
         raise vlib.MachineryError("vacuous universe: " + "; ".join(need[:8]))
 
